@@ -2,7 +2,7 @@ SPECIFICATION GSpecF
 CONSTANTS
   PRICE = {1, 2, 3, 5, 7, 10, 20, 50}
   QTY = {1, 2, 3, 5, 8}
-  FEE = {0, 1, 2, 3}
+  FEE <- GenFeeWide
   MARK = {}
   MaxFills = 99
   MaxLen = 12
